@@ -26,7 +26,7 @@ def one(d):
     finally:
         shutil.rmtree(w, ignore_errors=True)
 sel = [d for d in seeds if not only or os.path.basename(d) in only]
-with ThreadPoolExecutor(5) as ex:
+with ThreadPoolExecutor(6) as ex:
     res = dict(ex.map(one, sel))
 out = '/verif/seeded/MATRIX.json'
 old = json.load(open(out)) if os.path.exists(out) and only else {}
